@@ -303,6 +303,7 @@ _GRAFTS = {
     "custom-properties": ("root", "custom-properties", "/docProps/custom.xml", "application/vnd.openxmlformats-officedocument.custom-properties+xml",
                           b'<Properties xmlns="http://schemas.openxmlformats.org/officeDocument/2006/custom-properties" xmlns:vt="http://schemas.openxmlformats.org/officeDocument/2006/docPropsVTypes"><property fmtid="{D5CDD505-2E9C-101B-9397-08002B2CF9AE}" pid="2" name="k"><vt:lpwstr>v</vt:lpwstr></property></Properties>', None),
     "font": ("pres", "font", "/ppt/fonts/font1.fntdata", "application/x-fontdata", bytes(range(256)) * 3, "fntdata"),
+    "audio": ("slide", "MS-MEDIA", "/ppt/media/audio1.wav", "audio/wav", b"RIFF\x24\x00\x00\x00WAVEfmt " + bytes(28), "wav"),
     "slideUpdateInfo": ("slide", "slideUpdateInfo", "/ppt/slideUpdateInfo/slideUpdateInfo1.xml", "application/vnd.openxmlformats-officedocument.presentationml.slideUpdateInfo+xml",
                         b'<p:sldSyncPr xmlns:p="http://schemas.openxmlformats.org/presentationml/2006/main" serverSldId="s" serverSldModifiedTime="2020-01-01T00:00:00" clientInsertedTime="2020-01-01T00:00:00"/>', None),
 }
@@ -332,7 +333,8 @@ def graft_foreign_parts(data, rnd):
         rid = next("rId%d" % k for k in range(rnd.choice([1, len(used) + 1, len(used) + 7]), 10 ** 6) if "rId%d" % k not in used)
         base = "/" if src == "/" else posixpath.dirname(src)
         target = name[1:] if base == "/" else posixpath.relpath(name, base)
-        etree.SubElement(root, "{%s}Relationship" % opcx.NS_PR, Id=rid, Type="http://schemas.openxmlformats.org/officeDocument/2006/relationships/" + rt, Target=target)
+        rtype = "http://schemas.microsoft.com/office/2007/relationships/media" if rt == "MS-MEDIA" else "http://schemas.openxmlformats.org/officeDocument/2006/relationships/" + rt
+        etree.SubElement(root, "{%s}Relationship" % opcx.NS_PR, Id=rid, Type=rtype, Target=target)
         out[item] = etree.tostring(root, xml_declaration=True, encoding="UTF-8", standalone=True)
         out[name[1:]] = blob
         exts = {d.get("Extension").lower(): d.get("ContentType") for d in ct if d.tag == CT + "Default"}
@@ -916,6 +918,10 @@ class Run:
                 self.log.append("%s -> rejected %s" % (name, type(e).__name__))
                 self.acc.count("rejected_calls")
             except Exception as e:  # undocumented exception: outside what is quantified over; abandon
+                if name.startswith("add_") and "C06" in self.deciders and name != "add_picture_notimage":
+                    # ... except for C06, which quantifies over "however shapes are added ... on decks with arbitrary existing
+                    # ids": an addition to a loadable deck that raises is no addition
+                    self.report("C06", "addition-raises:%s:%s" % (name, type(e).__name__), "op %s raised %s: %s" % (name, type(e).__name__, str(e)[:120]))
                 self.abandoned = True
                 self.acc.count("abandoned:%s:%s" % (name, type(e).__name__))
                 self.acc.note("history abandoned at %s: %s: %s" % (name, type(e).__name__, str(e)[:120]))
